@@ -1,7 +1,9 @@
 /-
 Oracle for C14.
 
-case     : `stack=tlcp|dtlcp kind=<kind> op=enc f=<fields>`   |   `… op=dec data=<hex>`
+case     : `stack=tlcp|dtlcp kind=<kind> op=enc f=<fields>`   |   `… op=dec data=<hex>`  |  `… op=cap data=<hex>`
+           (cap: a message captured from a real handshake; judged like dec and additionally required to
+           be canonical and inside the constructors' shape `Model.Emitted`, tag `emitted`)
 observed : enc: `enc=ok data=<hex> dec=ok g=<fields>` | `enc=ok data=<hex> dec=rej|panic` | `enc=err|panic`
            dec: `dec=ok g=<fields> raw=<0|1> re=<ok|diff|err|panic>` | `dec=rej` | `dec=panic`
 
@@ -248,6 +250,22 @@ def specWF (st : Stack) (k : Kind) : AnyMsg → Bool
   | .sh m => Spec.Codec.wfServerHello m
   | .ch m => Spec.Codec.wfClientHello st m
 
+/-- the constructors' shape (`Model.Emitted`) of the decoded fields of a captured message -/
+def emittedAny (st : Stack) (k : Kind) (m : AnyMsg) : Bool :=
+  let p := match st with | .tlcp => Emitted.paramsT | .dtlcp => Emitted.paramsD
+  match k, m with
+  | .finished, .blob b => Emitted.emittedFinished p b
+  | .certificateVerify, .blob b => Emitted.emittedCertificateVerify b
+  | .clientKeyExchange, .blob b => Emitted.emittedKeyExchange b
+  | .serverKeyExchange, .blob b => Emitted.emittedKeyExchange b
+  | .serverHelloDone, .unit => true
+  | .certificate, .cert c => Emitted.emittedCertificate c
+  | .certificateRequest, .creq c => Emitted.emittedCertificateRequest p c
+  | .helloVerifyRequest, .hvr v => Emitted.emittedHelloVerifyRequest p v
+  | .serverHello, .sh s => Emitted.emittedServerHello p s
+  | .clientHello, .ch c => Emitted.emittedClientHello p (st == .dtlcp) c
+  | _, _ => false
+
 /-! ### judge -/
 
 def parseStack (s : String) : Option Stack :=
@@ -310,7 +328,7 @@ def judgeEnc (st : Stack) (k : Kind) (ks : String) (ct ot : List String) : Optio
           else none
   pure { model := model, spec := spec, note := s!"{ks}.enc.{cls}.{if wf then "wf" else "loose"}" }
 
-def judgeDec (st : Stack) (k : Kind) (ks : String) (ct ot : List String) : Option Verdict := do
+def judgeDec (captured : Bool) (st : Stack) (k : Kind) (ks : String) (ct ot : List String) : Option Verdict := do
   let data ← kvHex ct "data"
   let (model, cls) :=
     match modelDecode st k data with
@@ -331,19 +349,23 @@ def judgeDec (st : Stack) (k : Kind) (ks : String) (ct ot : List String) : Optio
     match strict with
     | some (h, m) =>
       let want := render st k h m
-      if obsDec != "ok" then some ("canonical", "a canonical encoding is refused")
+      if captured && !emittedAny st k m then
+        some ("emitted", "a message captured from a real handshake is outside the constructors' shape (Model.Emitted)")
+      else if obsDec != "ok" then some ("canonical", "a canonical encoding is refused")
       else if (kv ot "g").getD "" != want then some ("canonical", s!"a canonical encoding decodes to other fields: expected {want}")
       else if (kv ot "re").getD "" != "ok" then some ("canonical", "the decoded fields of a canonical encoding do not re-encode to it")
       else none
     | none =>
-      if obsDec == "ok" then
+      if captured then some ("emitted", "a message captured from a real handshake is not a canonical encoding")
+      else if obsDec == "ok" then
         match Spec.Codec.shapeFailure st k data with
         | some "unframed" => some ("unframed", "accepted although the header disagrees with the data (length / fragment fields / trailing bytes)")
         | some why => some (why, "accepted although an inner vector does not end where its container ends")
         | none => none
       else none
   let canon := if strict.isSome then ".canon" else ""
-  pure { model := model, spec := spec, note := s!"{ks}.dec.{cls}{canon}" }
+  let opn := if captured then "cap" else "dec"
+  pure { model := model, spec := spec, note := s!"{ks}.{opn}.{cls}{canon}" }
 
 def judge (c o : String) : Option Verdict := do
   let ct := tokens c
@@ -353,7 +375,8 @@ def judge (c o : String) : Option Verdict := do
   let k ← parseKind ks
   let op ← kv ct "op"
   if op == "enc" then judgeEnc st k ks ct ot
-  else if op == "dec" then judgeDec st k ks ct ot
+  else if op == "dec" then judgeDec false st k ks ct ot
+  else if op == "cap" then judgeDec true st k ks ct ot
   else none
 
 end Gotlcp.Oracle.C14
